@@ -975,7 +975,9 @@ func ProtocolViolations(trace []*shim.Ev) (out []det.Violation, judged int64) {
 		sent        bool
 		echoAllowed int
 		bound       bool
+		kind        string // plain | gang-real | placeholder (what the shim sent)
 	}
+	nodeRemovals := 0
 	keys := map[string]*ks{}
 	nodes := map[string]bool{}
 	get := func(k string) *ks {
@@ -993,7 +995,18 @@ func ProtocolViolations(trace []*shim.Ev) (out []det.Violation, judged int64) {
 		}
 		switch {
 		case ev.Dir == "send" && (ev.Kind == "ask" || ev.Kind == "foreign"):
-			get(ev.Key).sent = true
+			k := get(ev.Key)
+			k.sent = true
+			switch {
+			case ev.Flag:
+				k.kind = "placeholder"
+			case ev.TG != "":
+				k.kind = "gang-real"
+			default:
+				k.kind = "plain"
+			}
+		case ev.Dir == "send" && ev.Kind == "node:DECOMISSION":
+			nodeRemovals++
 		case ev.Dir == "send" && ev.Kind == "bound":
 			k := get(ev.Key)
 			k.sent = true
@@ -1013,7 +1026,12 @@ func ProtocolViolations(trace []*shim.Ev) (out []det.Violation, judged int64) {
 				if k.echoAllowed > 0 {
 					k.echoAllowed--
 				} else {
-					add("key-bound-twice", fmt.Sprintf("the core announced allocation %s as new twice without announcing its release in between", ev.Key))
+					ctx := "/" + k.kind
+					if nodeRemovals > 0 {
+						ctx += "+node-removal"
+					}
+					out = append(out, det.Violation{Prop: "C04", Rule: "key-bound-twice", Signature: "C04/key-bound-twice" + ctx + "@conc", Op: "conc",
+						Text: fmt.Sprintf("the core announced allocation %s (%s) as new twice without announcing its release in between", ev.Key, k.kind)})
 				}
 			} else if k.echoAllowed > 0 {
 				k.echoAllowed--
